@@ -251,7 +251,8 @@ class ScriptedValidator:
 def _scripted_variant(params, flags, se):
     mn, mx, ms, im, is_, mode = params
     val = ScriptedValidator(flags)
-    frames = [("f", i) for i in range(len(flags))]
+    # odd lengths: every frame is the very same object (a run of identical windows), even lengths: distinct frames
+    frames = ["f"] * len(flags) if len(flags) % 2 else [("f", i) for i in range(len(flags))]
     tok = _auditok()["ST"](val, mn, mx, ms, im, is_, mode)
     try:
         got = tok.tokenize(Src(frames))
